@@ -269,6 +269,12 @@ def build(term, ctx, path="r", batch=None):
     if head == "TriT":  # TriangularLinearOperator over a raw tensor
         upper = kw.get("upper", False)
         A = leaf(ctx, path, "triu" if upper else "tril", (kw["n"], kw["n"]), batch)
+        if kw.get("negdiag"):
+            # a triangular factor need not have a positive diagonal (e.g. the R of a QR factorisation): flip the sign of every other column /
+            # row, which keeps L L^T (R^T R) unchanged in value class and makes sign-sensitive shortcuts (log of the diagonal) visible
+            sg = torch.tensor([1.0 if i % 2 else -1.0 for i in range(kw["n"])], dtype=A.dtype)
+            with torch.no_grad():
+                A.mul_(sg.unsqueeze(-1) if upper else sg)
         return Built(O.TriangularLinearOperator(A, upper=upper), A, term, tri="upper" if upper else "lower")
     if head == "Chol":
         inner = sub(0)
@@ -479,6 +485,9 @@ def catalogue(n=3, include_rect=True):
         "TriLop": ["Tri", {"upper": False}, D(n, kind="tril")], "TriUop": ["Tri", {"upper": True}, D(n, kind="triu")],
         "CholL": ["Chol", {"upper": False}, ["TriT", {"n": n, "upper": False}]],
         "CholU": ["Chol", {"upper": True}, ["TriT", {"n": n, "upper": True}]],
+        "CholLneg": ["Chol", {"upper": False}, ["TriT", {"n": n, "upper": False, "negdiag": True}]],
+        "CholUneg": ["Chol", {"upper": True}, ["TriT", {"n": n, "upper": True, "negdiag": True}]],
+        "TriLneg": ["TriT", {"n": n, "upper": False, "negdiag": True}],
         "Root": ["Root", {}, D(n, 2)], "RootSq": ["Root", {}, D(n)], "LowRankRoot": ["LowRankRoot", {}, D(n, 2)],
         "Kron": ["Kron", {}, D(2, kind="psd"), D(n, kind="psd")],
         "Kron3": ["Kron", {}, D(2, kind="psd"), D(2, kind="psd"), D(2, kind="psd")],
